@@ -429,9 +429,12 @@ def run_case(case, ctx):
             'p': int(Z[1])})
         return
     teneva.orthogonalize(Y)                       # default pivot = last
-    for bad in (-1, d, d + 3):
+    for bad in (-1, d, d + 3, -0.5, d - 0.5, np.float64(-0.25),
+            np.float64(d - 0.1), np.int64(d), -d - 1):
         expect_reject(ctx, lambda: teneva.orthogonalize(Y, bad),
-            f'orthogonalize(k={bad}), d={d}')
+            f'orthogonalize(k={bad!r}), d={d}')
+        expect_reject(ctx, lambda: teneva.orthogonalize(Y, bad, True),
+            f'orthogonalize(k={bad!r}, use_stab=True), d={d}')
     steps = list(range(d)) if d <= 8 else [0, 1, d // 2, d - 2, d - 1]
     for i in steps:
         for inplace in (False, True):
